@@ -698,7 +698,7 @@ class Inliner:
             if any(d not in ("staticmethod",) for d in decos):
                 continue
             a = fn.args
-            if a.vararg or a.kwarg or a.posonlyargs:
+            if a.vararg or a.posonlyargs:
                 continue
             if any(isinstance(n, ast.Call) and isinstance(n.func, (ast.Name, ast.Attribute)) and (getattr(n.func, "id", None) == fn.name or getattr(n.func, "attr", None) == fn.name)
                    for n in ast.walk(fn)):
@@ -836,11 +836,22 @@ class Inliner:
             given[p] = a
             order.append(p)
         params = params + kwonly
+        extra = []  # keywords collected by the helper's **kwargs, in call order
         for k in call.keywords:
-            if k.arg is None or k.arg not in params or k.arg in given:
+            if k.arg is None or k.arg in given:
                 return None
+            if k.arg not in params:
+                if fn.args.kwarg is None:
+                    return None
+                extra.append(k)
+                continue
             given[k.arg] = k.value
             order.append(k.arg)
+        if fn.args.kwarg is not None:
+            kwname = fn.args.kwarg.arg
+            params = params + [kwname]
+            given[kwname] = ast.Dict(keys=[ast.Constant(k.arg) for k in extra], values=[k.value for k in extra])
+            order.append(kwname)
         for p in params:
             if p not in given:
                 if p in dmap:
@@ -1518,6 +1529,89 @@ def loops_to_comprehensions(fn, comp_locals: dict, known_locals=None) -> int:
     return n_done
 
 
+def assignments_to_walrus_tests(fn, raw_tests) -> int:
+    """`v = E` + `if v:` / `if not v:`  is  `if (v := E):` / `if not (v := E):` - rewritten when the reference tests a walrus of
+    the same expression E at that place (its recorded if-tests contain `... := E`)."""
+    n_done = 0
+    wal = [t for t in raw_tests if ":=" in t]
+    if not wal:
+        return 0
+    for node in list(_walk_no_defs(fn)):
+        for fld in ("body", "orelse", "finalbody"):
+            block = getattr(node, fld, None)
+            if not (isinstance(block, list) and block and isinstance(block[0], ast.stmt)):
+                continue
+            i = 0
+            while i + 1 < len(block):
+                a, iff = block[i], block[i + 1]
+                i += 1
+                if not (isinstance(a, ast.Assign) and len(a.targets) == 1 and isinstance(a.targets[0], ast.Name) and isinstance(iff, ast.If)):
+                    continue
+                v = a.targets[0].id
+                t = iff.test
+                neg = isinstance(t, ast.UnaryOp) and isinstance(t.op, ast.Not)
+                core = t.operand if neg else t
+                if not (isinstance(core, ast.Name) and core.id == v):
+                    continue
+                etxt = ast.unparse(a.value)
+                if not any(w.split(":=", 1)[1].strip().rstrip(")").strip() == etxt or (":= " + etxt) in w for w in wal):
+                    continue
+                w = ast.NamedExpr(target=ast.Name(id=v, ctx=ast.Store()), value=a.value)
+                iff.test = ast.UnaryOp(op=ast.Not(), operand=w) if neg else w
+                block.remove(a)
+                i -= 1
+                n_done += 1
+    if n_done:
+        ast.fix_missing_locations(fn)
+    return n_done
+
+
+def unroll_literal_dict_loops(fn, known_locals: set) -> int:
+    """`d = {'a': x, 'b': y}` (a NEW name, values plain names / constants) + `for k, v in d.items(): BODY` with d used nowhere else
+    is BODY for ('a', x) then BODY for ('b', y)."""
+    n_done = 0
+    for node in list(_walk_no_defs(fn)):
+        for fld in ("body", "orelse", "finalbody"):
+            block = getattr(node, fld, None)
+            if not (isinstance(block, list) and block and isinstance(block[0], ast.stmt)):
+                continue
+            i = 0
+            while i + 1 < len(block):
+                a, lp = block[i], block[i + 1]
+                i += 1
+                if not (isinstance(a, ast.Assign) and len(a.targets) == 1 and isinstance(a.targets[0], ast.Name) and a.targets[0].id not in known_locals
+                        and isinstance(a.value, ast.Dict) and len(a.value.keys) <= 4 and all(isinstance(k, ast.Constant) for k in a.value.keys)
+                        and all(isinstance(v, (ast.Name, ast.Constant)) for v in a.value.values)):
+                    continue
+                d = a.targets[0].id
+                if not (isinstance(lp, ast.For) and not lp.orelse and isinstance(lp.iter, ast.Call) and isinstance(lp.iter.func, ast.Attribute) and lp.iter.func.attr == "items"
+                        and isinstance(lp.iter.func.value, ast.Name) and lp.iter.func.value.id == d and not lp.iter.args
+                        and isinstance(lp.target, ast.Tuple) and len(lp.target.elts) == 2 and all(isinstance(e, ast.Name) for e in lp.target.elts)):
+                    continue
+                uses = [n for n in ast.walk(fn) if isinstance(n, ast.Name) and n.id == d]
+                if len(uses) != 2:
+                    continue
+                kv, vv = lp.target.elts[0].id, lp.target.elts[1].id
+                inside = {id(n) for n in ast.walk(lp)}
+                if any(isinstance(n, ast.Name) and n.id in (kv, vv) and id(n) not in inside for n in ast.walk(fn)):
+                    continue
+                if any(isinstance(n, (ast.Break, ast.Continue, ast.Return)) for x in lp.body for n in ast.walk(x)) or \
+                        any(isinstance(n, ast.Name) and n.id in (kv, vv) and isinstance(n.ctx, ast.Store) for x in lp.body for n in ast.walk(x)):
+                    continue
+                values_names = {v.id for v in a.value.values if isinstance(v, ast.Name)}
+                if any(isinstance(n, ast.Name) and n.id in values_names and isinstance(n.ctx, ast.Store) for x in lp.body for n in ast.walk(x)):
+                    continue
+                out = []
+                for k, v in zip(a.value.keys, a.value.values):
+                    for st in lp.body:
+                        out.append(_Renamer({kv: k, vv: v}).visit(copy.deepcopy(st)))
+                block[i - 1:i + 1] = out or [ast.copy_location(ast.Pass(), a)]
+                n_done += 1
+    if n_done:
+        ast.fix_missing_locations(fn)
+    return n_done
+
+
 def any_tests_to_loops(fn, known_tests: set) -> int:
     """`if any(c for t in it): <block that always leaves>` is the search loop `for t in it: if c: <block>` (the first hit
     leaves; no hit falls through) - rewritten when the reference does not know the `any(...)` test."""
@@ -1567,6 +1661,8 @@ def normalise_temporaries(tree: ast.Module, modname: str) -> int:
         if key not in r.get("if_tests", {}):
             continue
         params = {a.arg for a in ast.walk(fn) if isinstance(a, ast.arg)}
+        n += unroll_literal_dict_loops(fn, {x[0] for x in locs.get(key, [])} | params)
+        n += assignments_to_walrus_tests(fn, list(r.get("if_tests_raw", {}).get(key, {}).values()))
         n += any_tests_to_loops(fn, set(r.get("if_tests", {}).get(key, [])))
         n += loops_to_comprehensions(fn, {x[0]: x[2] for x in locs.get(key, []) if x[1] == "Assign" and x[2] in ("DictComp", "ListComp", "SetComp")},
                                      {x[0] for x in locs.get(key, [])} | params)
